@@ -186,6 +186,30 @@ def validate(v, prop, files, invs, tag):
     return results
 
 
+def failed_merges(v, tier, tag):
+    """C05 also for merge passes that FAIL: every behaviour of the generated set that contains a merge is run
+    once per system call its merges issue, with that call failing (ENOSPC, EIO); TraceFs judges reads in the
+    running process and after a restart (the fault-containment verdicts, attributed to C05 when the failed
+    call belonged to a merge)."""
+    import fscalls
+    gfile, ng = fscalls.gen_behaviours(v, tier, tag + "-fm", "none")
+    lines = open(gfile).read().splitlines()
+    keep = [lines[0]] + [x for x in lines[1:] if ["merge"] in json.loads(x)["ops"]]
+    if tier == "quick":
+        keep = [keep[0]] + [x for n, x in enumerate(keep[1:]) if (n + seed()) % 2 == 0]
+    open(gfile, "w").write("\n".join(keep) + "\n")
+    pre = os.path.join(OUT, "work", tag + "-fm", "fm")
+    files, sums, aborts = run_shards("fsdrive", ["fault", gfile, pre, "--seed", str(seed()), "--max-points", "1000000", "--only-op", "merge"],
+                                     pre, min(NCPU, max(1, len(keep) - 1)))
+    if aborts:
+        v.cov.setdefault("process_deaths_in_code_under_test", []).extend(aborts[:5])
+    fscalls.validate(v, "C05", files, tag + "-fm")
+    v.cov["failed_merge_runs"] = sum(x.get("runs", 0) for x in sums)
+    v.cov["failed_merge_behaviours"] = len(keep) - 1
+    if not v.violations:
+        shutil.rmtree(os.path.join(OUT, "work", tag + "-fm"), ignore_errors=True)
+
+
 def check(prop, tier):
     v = Verdict(prop, tier)
     tag = f"{prop}-{os.getpid()}"
@@ -196,6 +220,8 @@ def check(prop, tier):
         bfile, nb, bstats = generate(v, tier, tag)
         files, summary = drive(v, tier, tag, bfile)
         validate(v, prop, files, PROPS[prop]["trace"], tag)
+        if prop == "C05" and not v.violations:
+            failed_merges(v, tier, tag)
         nruns = sum(s["runs"] for s in summary.values())
         v.cov["traces_validated_against_impl"] = nruns
         v.cov["behaviours_generated_by_tlc"] = nb
@@ -223,6 +249,10 @@ def check(prop, tier):
 def replay(prop, path):
     """Re-execute the behaviour of a replay file against the current tree and judge it again."""
     rp = json.load(open(path))
+    if rp.get("mode") == "fault":
+        # a failed-merge run of C05: replayed by the fault machinery
+        import fscalls
+        return fscalls.replay(prop, path)
     v = Verdict(prop, "quick")
     build_harness()
     tag = f"replay-{prop}-{os.getpid()}"
